@@ -72,6 +72,33 @@ Section Core.
     exact (C01_backward_is_adjoint_concrete rO rI radd rmul rsub ropp Rth tan dp ops0 e0 ps
              Hwf Hsh Hc Hr Hnd Hcov n sn bl ops' e' bl' Hcl Hps Hn Hs).
   Qed.
+  (* C01_backward_call_is_adjoint_concrete on a graph of ANY world reachable by a history over
+     core_family: neither `backward ... = Some` nor wf_ops / shape_ok / gclean are hypotheses *)
+  Theorem C01_backward_call_is_adjoint_concrete_reachable
+    (tan : nat * nat -> @OpFamily.vec R) (dp : nat -> @OpFamily.vec R)
+    (e : @env (@OpFamily.vec R)) (cs : list (@cmd cop tshape (@OpFamily.vec R))) gi
+    (g : @gstate cop tshape (@OpFamily.vec R)) (e0 : @env (@OpFamily.vec R)) (ps : list nat) :
+    nth_error (w_graphs (run_all core_family VO {| w_graphs := []; w_env := e |} cs)) gi = Some g ->
+    consistent core_family core_jvp tan dp (g_ops g) e0 ->
+    rsized core_family tsize tan (g_ops g) e0 -> NoDup ps ->
+    (forall k oi p, nth_error (g_ops g) k = Some oi -> f_inner core_family (o_op oi) = Some p -> In p ps) ->
+    forall n sn v,
+      psz core_family tsize (g_ops g) e0 -> get_slot g n = Some sn -> s_val sn = Some v ->
+      exists g' e',
+        backward core_family VO g e0 n = Some (g', e') /\
+        ppot rO radd rmul dp ps e' = radd (ppot rO radd rmul dp ps e0) (vsum rO radd (tan n)) /\
+        gclean (g_ops g') /\ e_pval e' = e_pval e0.
+  Proof.
+    intros Eg Hc Hr Hnd Hcov n sn v Hps Hsn Hv.
+    destruct (T_reachable_invariant core_family VO core_FamOK e cs) as (Hw & Hsh).
+    unfold winv, wshape in *. rewrite Forall_forall in Hw, Hsh.
+    destruct (Hw g (nth_error_In _ _ Eg)) as (Hinv & Hcl & _). pose proof (Hsh g (nth_error_In _ _ Eg)) as Hshape.
+    assert (Hs : get_slot g n <> None) by congruence.
+    destruct (backward_total core_family VO (proj1 core_FamOK) g e0 n Hinv Hcl Hs) as (g' & e' & Hb).
+    exists g', e'. split; [exact Hb|].
+    exact (C01_backward_call_is_adjoint_concrete rO rI radd rmul rsub ropp Rth tan dp g e0 ps
+             (proj1 Hinv) Hshape Hc Hr Hnd Hcov n sn v g' e' Hcl Hps Hsn Hv Hb).
+  Qed.
 End Core.
 
 (* ---------------------------------------------------------------- the real family *)
@@ -138,6 +165,28 @@ Proof.
   exact (C01_backward_computes_derivative_real dp ops0 e0 ps Hlen Hsm Hwf Hsh Hc Hr Hnd Hcov n sn bl ops' e' bl' Hcl Hps Hn Hs).
 Qed.
 
+(* the same for real_family *)
+Theorem C01_backward_call_is_adjoint_real_reachable
+  (tan : nat * nat -> @OpFamily.vec R) (dp : nat -> @OpFamily.vec R)
+  (e : @env (@OpFamily.vec R)) (cs : list (@cmd rop tshape (@OpFamily.vec R))) gi
+  (g : @gstate rop tshape (@OpFamily.vec R)) (e0 : @env (@OpFamily.vec R)) (ps : list nat) :
+  nth_error (w_graphs (run_all real_family (vec_ops 0 1 Rplus tsize) {| w_graphs := []; w_env := e |} cs)) gi = Some g ->
+  consistent real_family real_jvp tan dp (g_ops g) e0 ->
+  rsized real_family tsize tan (g_ops g) e0 -> NoDup ps ->
+  (forall k oi p, nth_error (g_ops g) k = Some oi -> f_inner real_family (o_op oi) = Some p -> In p ps) ->
+  forall n sn v,
+    psz real_family tsize (g_ops g) e0 -> get_slot g n = Some sn -> s_val sn = Some v ->
+    exists g' e',
+      backward real_family (vec_ops 0 1 Rplus tsize) g e0 n = Some (g', e') /\
+      ppot 0 Rplus Rmult dp ps e' =
+        ppot 0 Rplus Rmult dp ps e0 + OpFamily.dot 0 Rplus Rmult (vones (vec_ops 0 1 Rplus tsize) (s_shape sn)) (tan n) /\
+      gclean (g_ops g') /\ e_pval e' = e_pval e0.
+Proof.
+  intros Eg Hc Hr Hnd Hcov n sn v Hps Hsn Hv.
+  exact (backward_adjoint_reachable 0 1 Rplus Rmult Rminus Ropp RthR real_family real_jvp tsize tan dp real_FamOK
+           e cs gi g e0 ps Eg (fun k oi _ _ => real_LocalAdjoint (o_op oi)) Hc Hr Hnd Hcov n sn v Hps Hsn Hv).
+Qed.
+
 (* ---------------------------------------------------------------- non-vacuity *)
 Local Close Scope R_scope.
 Lemma ad_ready : tape_ready EF ad_ops0.
@@ -194,4 +243,28 @@ Proof.
   split; [exact Hn|]. split; [apply run_strict_eq; exact Hn|].
   intros gi g n Eg Hs e1.
   exact (reachable_backward_total zF cVO (proj1 zF_ok) (proj1 (proj2 zF_ok)) (proj2 (proj2 zF_ok)) cy_env cy_hist gi g n Eg Hs e1).
+Qed.
+
+(* the reachable-graph form applied to the graph built by the history cy_cmds: every evaluated
+   node (all 41 operators are evaluated by the final forward) is a target for which backward
+   returns and adds the derivative *)
+Lemma cy_reachable_call :
+  exists g, nth_error (w_graphs (run_all zF cVO cy_w0 cy_cmds)) 0 = Some g /\ g_ops g = cy_ops0 /\
+    forall n sn v, get_slot g n = Some sn -> s_val sn = Some v ->
+      exists g' e',
+        backward zF cVO g cy_env n = Some (g', e') /\
+        ppot 0%Z Z.add Z.mul cy_dp [0; 1; 2; 3] e' = (ppot 0%Z Z.add Z.mul cy_dp [0; 1; 2; 3]%nat cy_env + vsum 0%Z Z.add (cy_tan n))%Z /\
+        gclean (g_ops g') /\ e_pval e' = e_pval cy_env.
+Proof.
+  assert (Hg : exists g, nth_error (w_graphs (run_all zF cVO cy_w0 cy_cmds)) 0 = Some g /\ g_ops g = cy_ops0)
+    by (vm_compute; eexists; split; reflexivity).
+  destruct Hg as (g & Eg & Hops). exists g. split; [exact Eg|]. split; [exact Hops|].
+  intros n sn v Hn Hv.
+  assert (Hcov : forall k oi p, nth_error (g_ops g) k = Some oi -> f_inner zF (o_op oi) = Some p -> In p [0; 1; 2; 3])
+    by (rewrite Hops; exact cy_cover).
+  refine (C01_backward_call_is_adjoint_concrete_reachable 0%Z 1%Z Z.add Z.mul Z.sub Z.opp Zth cy_tan cy_dp cy_env cy_cmds 0 g cy_env [0; 1; 2; 3]
+            Eg _ _ cy_nodup Hcov n sn v _ Hn Hv); rewrite Hops.
+  - exact cy_consistent.
+  - exact cy_rsized.
+  - exact cy_psz.
 Qed.
